@@ -201,8 +201,8 @@ type ResultJ struct {
 	Error *string `json:"error"`
 	// Details of an error result (not compared with the model)
 	Details string `json:"details,omitempty"`
-	UUID  string  `json:"uuid"`
-	Rows  []Row   `json:"rows"`
+	UUID    string `json:"uuid"`
+	Rows    []Row  `json:"rows"`
 }
 
 func classOf(e string) string {
